@@ -1,5 +1,6 @@
 import Clover.Props.C13
 import Clover.Model.DB
+import Clover.Proofs.RefineInsert
 /-! # C12 — `_id` is a unique, immutable key within a collection -/
 namespace CV.Props.C12
 open CV
@@ -20,5 +21,45 @@ theorem updateById_rejects_id_change (c id : Bytes) (u : Upd) (d d' : Doc)
   intro φ ctx hm hd h0 h1
   simp only [Op.body, getMeta, bind, StoreM.bind', StoreM.get, StoreM.call, h0, hm, Bool.false_eq_true, if_false,
     StoreM.pure', pure, h1, hd, hu, hid, ne_eq, not_false_eq_true, if_true, StoreM.fail, Res.isErr]
+
+end CV.Props.C12
+
+namespace CV.Props.C12
+open CV
+
+variable (likeFn : LikeFn) (fnFam : FnFam)
+
+/-- **Insert** (single or batched, generated and supplied ids) answers what the specification
+    answers — `ErrDuplicateKey` for an id already stored or occurring earlier in the batch,
+    `invalid id` for a malformed one, in the specification's order, with nothing changed — and on
+    success the store represents the specification's new state: every document under the key of its
+    own `_id`, supplied ids kept, fresh ids assigned to documents lacking one. -/
+theorem insert_exact (s : Spec.State) (σ : KVS) (hw : WF s) (hr : Rep s σ) (c : Bytes) (docs : List Doc) (fresh : List Bytes) :
+    let r := withTx true (Op.body likeFn fnFam (.insert c docs fresh)) noFault σ
+    let sp := Spec.step likeFn fnFam s (.insert c docs fresh)
+    r.1 = sp.1 ∧ Rep sp.2 r.2.1 ∧ WF sp.2 := insert_refines likeFn fnFam s σ hw hr c docs fresh
+
+/-- In the specification a duplicate id anywhere in a batch fails the whole insert. -/
+theorem spec_insert_dup_rejected (docs : List (Bytes × Doc)) (d : Doc) (ds : List Doc)
+    (h : (Spec.lookup d.objectId docs).isSome = true) : Spec.insertAll docs (d :: ds) = .err .dupKey := by
+  simp [Spec.insertAll, h]
+
+/-- **UpdateById / ReplaceById / Save of an existing id** (any updater, any index set): same outcome
+    as the specification, which replaces exactly the document stored under `id` and refuses a
+    result whose `_id` differs; no other document is overwritten, none becomes reachable under a
+    key different from its `_id` (the new store represents the new state, in which `CollWF.idsWF`
+    holds). -/
+theorem updateById_exact (s : Spec.State) (σ : KVS) (hw : WF s) (hr : Rep s σ) (c id : Bytes) (u : Upd) :
+    let r := withTx true (Op.body likeFn fnFam (.updateById c id u)) noFault σ
+    let sp := Spec.step likeFn fnFam s (.updateById c id u)
+    r.1 = sp.1 ∧ Rep sp.2 r.2.1 ∧ WF sp.2 := updateById_refines likeFn fnFam s σ hw hr c id u
+
+/-- Under the invariant `FindById(c, id)` can only return a document whose `_id` is `id`. -/
+theorem findById_returns_own_id (s : Spec.State) (hw : WF s) (c id : Bytes) (coll : Spec.Coll) (d : Doc)
+    (hl : Spec.lookup c s = some coll) (hd : Spec.lookup id coll.docs = some d) : d.objectId = id :=
+  (collWF_lookup coll (wf_lookup_clean s hw c coll hl).2 id d hd).2
+
+/-- A valid `_id` is a 36-byte text free of `';'` and 0xFF (what the key layout relies on). -/
+theorem valid_id_wellformed (d : Doc) (h : validDoc d = true) : IdWF d.objectId := validDoc_idWF d h
 
 end CV.Props.C12
